@@ -11,6 +11,7 @@ B == N("cmake", FALSE, FALSE, TRUE, "", 4)
 da == N("a", FALSE, FALSE, FALSE, "", 2)
 db == N("b", FALSE, FALSE, FALSE, "", 3)
 dout == N("out", FALSE, FALSE, FALSE, "", 7)
+doutold == N("out-old", FALSE, FALSE, FALSE, "", 7)      \* a sibling whose name merely begins like the output directory's
 
 \* trees: Mk(files, children) where children maps a directory name to a subtree
 Leaf(files) == (<<>> :> [dirs |-> {}, files |-> files])
@@ -20,7 +21,7 @@ MergeAll(S) == IF S = {} THEN <<>> ELSE LET x == CHOOSE x \in S : TRUE IN x @@ M
 Mk(files, ch) == (<<>> :> [dirs |-> DOMAIN ch, files |-> files]) @@ MergeAll({Under(d, ch[d]) : d \in DOMAIN ch})
 NoCh == [d \in {} |-> <<>>]
 
-LeafFiles == {{}, {X}, {T}, {X, Y}, {X, Z}, {DE, B}}
+LeafFiles == {{}, {X}, {T}, {X, Y}, {X, Z}, {DE, B}, {Y}}
 Leaves == {Leaf(f) : f \in LeafFiles}
 \* one level below the input directory: a directory that may itself have sub-directories a / b
 Mids == Leaves \cup {Mk(f, (db :> l)) : f \in {{}, {X}, {T}}, l \in {Leaf({X}), Leaf({}), Leaf({Y, X})}}
@@ -30,16 +31,18 @@ MCTrees == {Mk(f, NoCh) : f \in RootFiles}
            \cup {Mk(f, (da :> m)) : f \in RootFiles, m \in Mids}
            \cup {Mk(f, (da :> m) @@ (db :> l)) : f \in {{X}, {X, Z, T}}, m \in Mids, l \in {Leaf({X}), Leaf({T}), Leaf({Z, Y})}}
 SmallTrees == {Mk(f, NoCh) : f \in RootFiles}
+           \cup {Mk({X}, (doutold :> Leaf({Z})) @@ (da :> Mk({X}, (doutold :> Leaf({Z})))))}
+           \cup {Mk({X, T}, (da :> Leaf({Y})) @@ (db :> Leaf({X})))}
            \cup {Mk({X, Z, T}, (da :> m) @@ (db :> l)) : m \in {Leaf({X}), Leaf({T}), Mk({X}, (db :> Leaf({X}))), Mk({}, (db :> Leaf({X})))},
                                                            l \in {Leaf({X}), Leaf({Z}), Leaf({Z, Y})}}
 
 P(txt, comp, dironly) == [txt |-> txt, comp |-> comp, dironly |-> dironly, abs |-> <<FALSE, <<>>>>]
 Pabs(txt, path) == [txt |-> txt, comp |-> {}, dironly |-> FALSE, abs |-> <<TRUE, path>>]
-MCPatternSets == { {}, {P("a/", {"a"}, TRUE)}, {P("a/", {"a"}, TRUE), P("b", {"b"}, FALSE)}, {P("x.cmake", {"x.cmake"}, FALSE)},
+MCPatternSets == { {}, {P("x.cmake/", {"x.cmake"}, TRUE), P("b/", {"b"}, TRUE)}, {P("*.cmake/", {"x.cmake", "z.cmake", "d.e-f.cmake"}, TRUE)}, {P("a/", {"a"}, TRUE)}, {P("a/", {"a"}, TRUE), P("b", {"b"}, FALSE)}, {P("x.cmake", {"x.cmake"}, FALSE)},
                    {P("x.cmake", {"x.cmake"}, FALSE), P("z.cmake", {"z.cmake"}, FALSE)}, {P("*.CMAKE", {"Y.CMAKE"}, FALSE)},
                    {P("**/b", {"b"}, FALSE)}, {Pabs("@/a/x.cmake", <<da, X>>)}, {P("*.cmake", {"x.cmake", "z.cmake", "d.e-f.cmake"}, FALSE), P("n.txt", {"n.txt"}, FALSE)},
                    {P("b/", {"b"}, TRUE), P("x.cmake", {"x.cmake"}, FALSE)} }
-SmallPatternSets == { {}, {P("z.cmake", {"z.cmake"}, FALSE)}, {P("a/", {"a"}, TRUE), P("b", {"b"}, FALSE)}, {P("x.cmake", {"x.cmake"}, FALSE), P("z.cmake", {"z.cmake"}, FALSE)},
+SmallPatternSets == { {}, {P("x.cmake/", {"x.cmake"}, TRUE), P("b/", {"b"}, TRUE)}, {P("z.cmake", {"z.cmake"}, FALSE)}, {P("a/", {"a"}, TRUE), P("b", {"b"}, FALSE)}, {P("x.cmake", {"x.cmake"}, FALSE), P("z.cmake", {"z.cmake"}, FALSE)},
                       {P("*.cmake", {"x.cmake", "z.cmake", "d.e-f.cmake"}, FALSE)} }
 MCOutSub == [top |-> <<dout>>, sub |-> <<da, dout>>]
 NoDev == {}
